@@ -93,6 +93,8 @@ func instancesFor(prop, tier string) []*Instance {
 		c03Instances(add, thorough)
 	case "C15":
 		c15Instances(add, thorough)
+	case "SELF":
+		selfInstances(add)
 	}
 	return out
 }
@@ -1135,4 +1137,23 @@ func c20Instances(add func(*Instance), thorough bool) {
 			}
 		}
 	}
+}
+
+// SELF: translator self-test (./check --selftest), not a property
+func selfInstances(add func(*Instance)) {
+	for _, w := range []int{8, 16, 32, 64} {
+		for f := 0; f <= 3; f++ {
+			if f == 3 && w < 64 {
+				continue // OnesCount8/16/32 are table look-ups in math/bits and are not used by the library; OnesCount64 is the SWAR code
+			}
+			add(&Instance{Func: "VerifSelfBits", Params: P("w", w, "f", f)})
+		}
+	}
+	add(&Instance{Func: "VerifSelfGrow", Params: P("n", 600, "k", 1)})
+	add(&Instance{Func: "VerifSelfGrow", Params: P("n", 300, "k", 5)})
+	add(&Instance{Func: "VerifSelfGrow", Params: P("n", 40, "k", 4100)})
+	for n := 1; n <= 4; n++ {
+		add(&Instance{Func: "VerifSelfSort", Params: P("n", n)})
+	}
+	add(&Instance{Func: "VerifSelfCast", Params: P()})
 }
